@@ -574,7 +574,9 @@ def run_cases(ctx: Ctx, cases, props, label="random", known_sig=None):
                      {"fatal": im["fatal"]}, "GFI.run vs implementation (build)")
             continue
         ctx.traces_validated += 1
-        pred_fail = [f for fl in im["preds"] for f in fl if f["prop"] in props]
+        pred_fail = [f for k, fl in enumerate(im["preds"]) for f in fl if f["prop"] in props
+                     and not (f.get("why") == "applying the returned backward request raised"
+                              and k < len(mo) and "err" in mo[k])]      # (the model rejects that request too)
         # a traced address whose lookup in the trace's own choice map RAISES (the model holds a value there):
         # a defect of the choice map, not of the operation; reported as a predicate failure of its own
         # and kept out of the comparison of choices
